@@ -1,0 +1,163 @@
+//! Read-only dump hooks used by external verification tooling. Only compiled with
+//! `--cfg lexgen_verif`. Nothing here changes what the macro generates.
+
+use super::simplify::Trans;
+use super::{State, StateIdx, DFA};
+use crate::nfa::AcceptingState;
+use crate::right_ctx::RightCtxDFAs;
+use crate::semantic_action_table::SemanticActionIdx;
+
+use std::fmt::Write;
+
+/// Value of an accepting state, as a JSON number.
+pub trait VerifValue {
+    fn to_json(&self) -> String;
+}
+
+impl VerifValue for SemanticActionIdx {
+    fn to_json(&self) -> String {
+        self.as_usize().to_string()
+    }
+}
+
+impl VerifValue for () {
+    fn to_json(&self) -> String {
+        "0".to_string()
+    }
+}
+
+/// Transition target, as a JSON object `{"s": <state or -1>, "acc": [...]}`.
+pub trait VerifTarget {
+    fn to_json(&self) -> String;
+}
+
+impl VerifTarget for StateIdx {
+    fn to_json(&self) -> String {
+        format!("{{\"s\":{},\"acc\":[]}}", self.0)
+    }
+}
+
+impl<A: VerifValue> VerifTarget for Trans<A> {
+    fn to_json(&self) -> String {
+        match self {
+            Trans::Trans(StateIdx(s)) => format!("{{\"s\":{},\"acc\":[]}}", s),
+            Trans::Accept(acc) => format!("{{\"s\":-1,\"acc\":{}}}", accepting_json(acc)),
+        }
+    }
+}
+
+fn accepting_json<A: VerifValue>(acc: &[AcceptingState<A>]) -> String {
+    let items: Vec<String> = acc
+        .iter()
+        .map(|AcceptingState { value, right_ctx }| {
+            format!(
+                "{{\"rule\":{},\"ctx\":{}}}",
+                value.to_json(),
+                match right_ctx {
+                    Some(ctx) => ctx.as_usize() as i64,
+                    None => -1,
+                }
+            )
+        })
+        .collect();
+    format!("[{}]", items.join(","))
+}
+
+fn state_json<T: VerifTarget, A: VerifValue>(state: &State<T, A>) -> String {
+    let mut chars: Vec<(u32, String)> = state
+        .char_transitions
+        .iter()
+        .map(|(c, t)| (*c as u32, t.to_json()))
+        .collect();
+    chars.sort();
+    let chars: Vec<String> = chars
+        .into_iter()
+        .map(|(c, t)| format!("{{\"c\":{},\"t\":{}}}", c, t))
+        .collect();
+
+    let ranges: Vec<String> = state
+        .range_transitions
+        .iter()
+        .map(|r| {
+            format!(
+                "{{\"lo\":{},\"hi\":{},\"t\":{}}}",
+                r.start,
+                r.end,
+                r.value.to_json()
+            )
+        })
+        .collect();
+
+    let any: Vec<String> = state.any_transition.iter().map(|t| t.to_json()).collect();
+    let eoi: Vec<String> = state
+        .end_of_input_transition
+        .iter()
+        .map(|t| t.to_json())
+        .collect();
+
+    let mut preds: Vec<usize> = state.predecessors.iter().map(|p| p.0).collect();
+    preds.sort_unstable();
+    let preds: Vec<String> = preds.into_iter().map(|p| p.to_string()).collect();
+
+    format!(
+        "{{\"initial\":{},\"chars\":[{}],\"ranges\":[{}],\"any\":[{}],\"eoi\":[{}],\"acc\":{},\"preds\":[{}],\"backtrack\":{}}}",
+        state.initial,
+        chars.join(","),
+        ranges.join(","),
+        any.join(","),
+        eoi.join(","),
+        accepting_json(&state.accepting),
+        preds.join(","),
+        state.backtrack
+    )
+}
+
+pub fn dfa_json<T: VerifTarget, A: VerifValue>(dfa: &DFA<T, A>) -> String {
+    let states: Vec<String> = dfa.states.iter().map(state_json).collect();
+    format!("[{}]", states.join(","))
+}
+
+pub fn right_ctx_json(dfas: &RightCtxDFAs<StateIdx>) -> String {
+    let items: Vec<String> = dfas.iter().map(|(_, dfa)| dfa_json(dfa)).collect();
+    format!("[{}]", items.join(","))
+}
+
+/// Entry-state map (rule set name -> state index), sorted by name.
+pub fn entry_json<'a, I: Iterator<Item = (&'a String, &'a StateIdx)>>(entries: I) -> String {
+    let mut entries: Vec<(&String, usize)> = entries.map(|(k, v)| (k, v.0)).collect();
+    entries.sort();
+    let items: Vec<String> = entries
+        .into_iter()
+        .map(|(k, v)| format!("{{\"name\":{:?},\"idx\":{}}}", k, v))
+        .collect();
+    format!("[{}]", items.join(","))
+}
+
+/// Renumbering table used by code generation: for every state of the simplified DFA its index in
+/// the generated `match`, whether it gets its own arm, and the arm pattern (`-1` for `_`).
+pub fn renumber_json<T, A, F: Fn(StateIdx) -> StateIdx>(
+    dfa: &DFA<T, A>,
+    n_inlined: usize,
+    renumber: F,
+) -> String {
+    let n_states = dfa.states.len();
+    let mut out = String::new();
+    for (idx, state) in dfa.states.iter().enumerate() {
+        if idx != 0 {
+            out.push(',');
+        }
+        let has_arm = !(state.predecessors.len() == 1 && !state.initial);
+        let StateIdx(renum) = renumber(StateIdx(idx));
+        let pat: i64 = if renum + n_inlined + 1 == n_states {
+            -1
+        } else {
+            renum as i64
+        };
+        let _ = write!(
+            out,
+            "{{\"renum\":{},\"arm\":{},\"pat\":{}}}",
+            renum, has_arm, pat
+        );
+    }
+    format!("[{}]", out)
+}
